@@ -66,6 +66,7 @@ func main() {
 		for _, f := range p.ModuleFuncs("") {
 			fmt.Println(funcKey(f))
 		}
+		dumpLayouts(p)
 		return
 	}
 	if t := os.Getenv("VERIF_TIER"); t != "" && *tier == "" {
